@@ -341,8 +341,10 @@ impl W {
         for (k, s) in destroyed {
             storages.insert(*k);
             if *s != ZST_SNAP && !ledger::is_dropped(s.id) {
+                // "destroyed exactly once (by deletion of its entity ...), never leaked" is C08's clause as
+                // much as the purge is C05's: attribute to the one being checked
                 return Err((
-                    "C05",
+                    if self.prop == "C08" { "C08" } else { "C05" },
                     format!("{}: component value {} in storage {} of a deleted entity was not destroyed", what, s.id, self.env.drivers[*k].name()),
                 ));
             }
